@@ -215,7 +215,7 @@ impl Registry {
                     });
                 for (url, directives) in compose_directives {
                     writeln!(sdl, "extend schema @link(").ok();
-                    writeln!(sdl, "{}url: \"{}\"", tab(&options), url).ok();
+                    writeln!(sdl, "{}url: \"{}\"", tab(&options), escape_string(url)).ok();
                     writeln!(sdl, "{}import: [{}]", tab(&options), directives.join(",")).ok();
                     writeln!(sdl, ")").ok();
                     for name in directives {
@@ -295,7 +295,7 @@ impl Registry {
                         }
 
                         for tag in &arg.tags {
-                            write!(sdl, " @tag(name: \"{}\")", tag.replace('"', "\\\"")).ok();
+                            write!(sdl, " @tag(name: \"{}\")", escape_string(tag)).ok();
                         }
                     }
 
@@ -323,10 +323,10 @@ impl Registry {
                     write!(sdl, " @external").ok();
                 }
                 if let Some(requires) = &field.requires {
-                    write!(sdl, " @requires(fields: \"{}\")", requires).ok();
+                    write!(sdl, " @requires(fields: \"{}\")", escape_string(requires)).ok();
                 }
                 if let Some(provides) = &field.provides {
-                    write!(sdl, " @provides(fields: \"{}\")", provides).ok();
+                    write!(sdl, " @provides(fields: \"{}\")", escape_string(provides)).ok();
                 }
                 if field.shareable {
                     write!(sdl, " @shareable").ok();
@@ -335,10 +335,10 @@ impl Registry {
                     write!(sdl, " @inaccessible").ok();
                 }
                 for tag in &field.tags {
-                    write!(sdl, " @tag(name: \"{}\")", tag.replace('"', "\\\"")).ok();
+                    write!(sdl, " @tag(name: \"{}\")", escape_string(tag)).ok();
                 }
                 if let Some(from) = &field.override_from {
-                    write!(sdl, " @override(from: \"{}\")", from).ok();
+                    write!(sdl, " @override(from: \"{}\")", escape_string(from)).ok();
                 }
 
                 if !&field.requires_scopes.is_empty() {
@@ -378,7 +378,7 @@ impl Registry {
                         write!(
                             sdl,
                             " @specifiedBy(url: \"{}\")",
-                            specified_by_url.replace('"', "\\\"")
+                            escape_string(specified_by_url)
                         )
                         .ok();
                     }
@@ -388,7 +388,7 @@ impl Registry {
                             write!(sdl, " @inaccessible").ok();
                         }
                         for tag in tags {
-                            write!(sdl, " @tag(name: \"{}\")", tag.replace('"', "\\\"")).ok();
+                            write!(sdl, " @tag(name: \"{}\")", escape_string(tag)).ok();
                         }
                         if !requires_scopes.is_empty() {
                             write_requires_scopes(sdl, requires_scopes);
@@ -459,7 +459,7 @@ impl Registry {
                 if options.federation {
                     if let Some(keys) = keys {
                         for key in keys {
-                            write!(sdl, " @key(fields: \"{}\"", key).ok();
+                            write!(sdl, " @key(fields: \"{}\"", escape_string(key)).ok();
                             if !resolvable {
                                 write!(sdl, ", resolvable: false").ok();
                             }
@@ -479,7 +479,7 @@ impl Registry {
                     }
 
                     for tag in tags {
-                        write!(sdl, " @tag(name: \"{}\")", tag.replace('"', "\\\"")).ok();
+                        write!(sdl, " @tag(name: \"{}\")", escape_string(tag)).ok();
                     }
 
                     if !requires_scopes.is_empty() {
@@ -515,7 +515,7 @@ impl Registry {
                 if options.federation {
                     if let Some(keys) = keys {
                         for key in keys {
-                            write!(sdl, " @key(fields: \"{}\")", key).ok();
+                            write!(sdl, " @key(fields: \"{}\")", escape_string(key)).ok();
                         }
                     }
                     if *inaccessible {
@@ -523,7 +523,7 @@ impl Registry {
                     }
 
                     for tag in tags {
-                        write!(sdl, " @tag(name: \"{}\")", tag.replace('"', "\\\"")).ok();
+                        write!(sdl, " @tag(name: \"{}\")", escape_string(tag)).ok();
                     }
 
                     if !requires_scopes.is_empty() {
@@ -561,7 +561,7 @@ impl Registry {
                         write!(sdl, " @inaccessible").ok();
                     }
                     for tag in tags {
-                        write!(sdl, " @tag(name: \"{}\")", tag.replace('"', "\\\"")).ok();
+                        write!(sdl, " @tag(name: \"{}\")", escape_string(tag)).ok();
                     }
 
                     if !requires_scopes.is_empty() {
@@ -593,7 +593,7 @@ impl Registry {
                         }
 
                         for tag in &value.tags {
-                            write!(sdl, " @tag(name: \"{}\")", tag.replace('"', "\\\"")).ok();
+                            write!(sdl, " @tag(name: \"{}\")", escape_string(tag)).ok();
                         }
                     }
 
@@ -630,7 +630,7 @@ impl Registry {
                         write!(sdl, " @inaccessible").ok();
                     }
                     for tag in tags {
-                        write!(sdl, " @tag(name: \"{}\")", tag.replace('"', "\\\"")).ok();
+                        write!(sdl, " @tag(name: \"{}\")", escape_string(tag)).ok();
                     }
                 }
 
@@ -656,7 +656,7 @@ impl Registry {
                             write!(sdl, " @inaccessible").ok();
                         }
                         for tag in &field.tags {
-                            write!(sdl, " @tag(name: \"{}\")", tag.replace('"', "\\\"")).ok();
+                            write!(sdl, " @tag(name: \"{}\")", escape_string(tag)).ok();
                         }
                     }
                     for directive in &field.directive_invocations {
@@ -686,7 +686,7 @@ impl Registry {
                         write!(sdl, " @inaccessible").ok();
                     }
                     for tag in tags {
-                        write!(sdl, " @tag(name: \"{}\")", tag.replace('"', "\\\"")).ok();
+                        write!(sdl, " @tag(name: \"{}\")", escape_string(tag)).ok();
                     }
                 }
 
@@ -735,10 +735,12 @@ pub(super) fn write_description(
     let tabs = tab(options).repeat(level);
 
     if options.prefer_single_line_descriptions && !description.contains('\n') {
-        let description = description.replace('"', r#"\""#);
+        let description = escape_string(description);
         writeln!(sdl, "{tabs}\"{description}\"").ok();
     } else {
-        let description = description.replace('\n', &format!("\n{tabs}"));
+        let description = description
+            .replace("\"\"\"", "\\\"\"\"")
+            .replace('\n', &format!("\n{tabs}"));
         writeln!(sdl, "{tabs}\"\"\"\n{tabs}{description}\n{tabs}\"\"\"").ok();
     }
 }
